@@ -161,6 +161,25 @@ func (d *Driver) Do(op Op) *Obs {
 			m.Lease = h
 			o.Items = append(o.Items, m)
 		}
+	case "churn":
+		// op.Batch messages pass through a route of their own: enqueue, dequeue, ack, one after the other. The queue is
+		// the same afterwards; what the store did to its internal bookkeeping on the way (compaction, caches) is the point.
+		for i := 0; i < op.Batch; i++ {
+			id := fmt.Sprintf("zz-churn-%d", i)
+			if err := d.Store.Enqueue(queue.Envelope{ID: id, Route: "/zz-churn", Target: "zz", Payload: []byte("z")}); err != nil {
+				o.Err, o.ErrText = Other, fmt.Sprintf("churn: enqueue %d: %v", i, err)
+				return o
+			}
+			resp, err := d.Store.Dequeue(queue.DequeueRequest{Route: "/zz-churn", Target: "zz", Batch: 1, LeaseTTL: time.Minute})
+			if err != nil || len(resp.Items) != 1 || resp.Items[0].ID != id {
+				o.Err, o.ErrText = Other, fmt.Sprintf("churn: dequeue %d returned %d item(s) (%v)", i, len(resp.Items), err)
+				return o
+			}
+			if err := d.Store.Ack(resp.Items[0].LeaseID); err != nil {
+				o.Err, o.ErrText = Other, fmt.Sprintf("churn: ack %d: %v", i, err)
+				return o
+			}
+		}
 	case "ack":
 		set(d.Store.Ack(d.real(op.Lease)))
 	case "nack":
